@@ -187,7 +187,9 @@ func (t *Dense) IsView() bool {
 
 // IsMaterializeable indicates if the Tensor is materializable - if it has either gone through some transforms or slicing
 func (t *Dense) IsMaterializable() bool {
-	return t.viewOf != 0 || !t.old.IsZero()
+	// strided storage that is not a view any more (the Clone of a sliced view) can - and for every raw reader must - be
+	// materialised as well
+	return t.viewOf != 0 || !t.old.IsZero() || t.o.IsNotContiguous()
 }
 
 // IsManuallyManaged returns true if the memory associated with this *Dense is manually managed (by the user)
